@@ -49,10 +49,30 @@ def seeded_table():
     return "\n".join(rows)
 
 
+def benign_table():
+    d = os.path.join(VERIF, "benign")
+    path = os.path.join(d, "RESULTS.json")
+    res = json.load(open(path)) if os.path.exists(path) else {}
+    rows = ["| rewrite | kind | files | checks run | outcome | what no longer checked (if any) |",
+            "|----|----|----|----|----|----|"]
+    if not os.path.isdir(d):
+        return "\n".join(rows)
+    for name in sorted(n for n in os.listdir(d) if os.path.isdir(os.path.join(d, n))):
+        meta = json.load(open(os.path.join(d, name, "meta.json")))
+        r = res.get(name, {})
+        chk = {k[6:]: v for k, v in r.items() if k.startswith("check_") and isinstance(v, dict)}
+        why = "; ".join("%s: %s" % (k, next((l.strip()[8:140] for l in v["lines"] if l.strip().startswith("broken:")), "?"))
+                        for k, v in chk.items() if v["rc"] != 0)
+        rows.append("| %s | %s | %s | %s | %s | %s |" % (name, meta.get("what", ""), ", ".join(f.replace("pyrex/", "") for f in meta.get("files", [])),
+                                                      " ".join(sorted(chk)) or "not run yet", r.get("outcome", r.get("error", "")),
+                                                      why.replace("|", "/")))
+    return "\n".join(rows)
+
+
 def main():
     p = os.path.join(VERIF, "DESIGN.md")
     s = open(p).read()
-    for tag, fn in (("STATUS", status_table), ("SEEDED", seeded_table)):
+    for tag, fn in (("STATUS", status_table), ("SEEDED", seeded_table), ("BENIGN", benign_table)):
         b, e = "<!-- BEGIN %s -->" % tag, "<!-- END %s -->" % tag
         if b in s:
             s = s[:s.index(b) + len(b)] + "\n" + fn() + "\n" + s[s.index(e):]
